@@ -11,8 +11,6 @@ HERE = os.path.dirname(os.path.abspath(__file__))
 
 # id: (property, caught by [checks], strengthened?, needs-to-manifest, what the check reported)
 T = {
- 'C01_1': ('C01', ['C01'], '', 'id gap upstream (a filter returned None for an id) + a branch whose first MQ.send attempt times out on consecutive frames (slow joiner) while the sibling branch sends in time: the retry publishes under the sender\'s own counter -> a rejoined set with one id but frames of different original frames',
-           'C01 quick: rejoin_roots in 184/2500 runs'),
  'C01_2': ('C01', ['C01', 'C03'], '', 'explicit/remapped subscription with >=2 topics on one synchronized source whose topic set varies per frame; the pruned topic must not arrive first',
            'C01 quick: partial_set / missing_source in 264 runs; C03: sequence_mismatch in 419 runs'),
  'C02_1': ('C02', ['C02', 'C01', 'C03'], '', 'by-name subscription + a publisher that also emits a topic whose NAME STARTS WITH the subscribed name (main / main_crop) arriving before the subscribed set is complete',
@@ -103,6 +101,9 @@ def main():
         for r in rows:
             f.write('| ' + ' | '.join(r) + ' |\n')
         f.write(f'\n{len(rows)} kept, {sum(1 for r in rows if r[2])} caught by at least one check.\n')
+        f.write('\nRejected: a first C01 change (MQ.send clearing send_state before the send is known to have gone out; '
+                'caught by C01 rejoin_roots) deterministically fails the existing test '
+                'tests/test_filter.py::TestFilterOld::test_topo_balance_step, so it does not meet the criteria and is not kept.\n')
     print(len(rows), 'seeded changes indexed')
 
 
